@@ -527,7 +527,8 @@ pub fn run_op3(op: &str, a: &[&str]) -> Option<String> {
             // via text: one card-pair token per combo, in a shuffled order
             let mut v = es.clone();
             rng.shuffle(&mut v);
-            let txt: Vec<String> = v.iter().map(|(c, w)| format!("{}:{}", c, w)).collect();
+            // (the weight written is the one the range holds: a caller's -0.0 is stored as 0.0 since D11)
+            let txt: Vec<String> = v.iter().map(|(c, w)| format!("{}:{}", c, base.card_pairs().get(c).copied().unwrap_or(*w))).collect();
             if let Ok(hr) = HandRange::from_str(&txt.join(", ")) {
                 check(hr);
             }
